@@ -18,7 +18,7 @@ and 1 preemptions (quick), 2 (thorough, capped); thorough adds two 3-thread harn
 sequential result, and the same bodies run sequentially afterwards still do (the shared
 environment / query objects are left intact).
 Compile-only part: two threads each call env.compile(text) on one shared environment that
-has (or has not) compiled the text before; these bodies are short enough (119-552 scheduling
+has (or has not) compiled the text before; these bodies are short enough (119-458 scheduling
 points each) for ALL schedules with <= 2 preemptions, split into 16 slices by the smallest
 preemption of a schedule (quick: the same-text / already-compiled harness; thorough: all four).
 Oracle: both threads get a query that prints and evaluates like the sequential one.
@@ -196,7 +196,7 @@ W_HARNESS = [
     ("compile / compile, same text, environment already compiled it", "$", "$", True),
     ("compile / compile, two texts, environment already compiled both", "$", "$.a", True),
     ("compile / compile, same text, fresh environment", "$", "$", False),
-    ("compile / compile, same filter text, environment already compiled it", "$[?@.a]", "$[?@.a]", True),
+    ("compile / compile, same filter text, environment already compiled it", "$[?@]", "$[?@]", True),
 ]
 W_DOC = {"a": [1, {"a": 2}]}
 W_SLICES = 16
